@@ -89,10 +89,11 @@ def finish(run, level, level_text, rule, explanation=""):
 # ------------------------------------------------------------------------------------------------
 class MachineSpec:
     def __init__(self, pid, proj, profile, cfgs, count, interesting, variants=("include", "development"),
-                 monitor_ids=None, wrapper=(), extra_flags=(), cxx="g++", opt="-O0"):
+                 monitor_ids=None, wrapper=(), extra_flags=(), cxx="g++", opt="-O0", extra=None):
         self.pid = pid; self.proj = proj; self.profile = profile; self.cfgs = cfgs; self.count = count
         self.interesting = interesting; self.variants = variants; self.monitor_ids = monitor_ids or [pid]
         self.wrapper = wrapper; self.extra_flags = extra_flags; self.cxx = cxx; self.opt = opt
+        self.extra = extra          # optional: tier -> [(cfg, script, source)]: enumerated scripts on top of the generated ones
 
 def cfg_from_line(line):
     kv = dict(t.split("=") for t in line.split()[1:])
@@ -117,7 +118,7 @@ def analyse(run, spec, c, bins, script, source):
     mproj = T.project(mout, spec.proj)
     found_v = []; found_d = []; validated = 0
     for variant, b in bins.items():
-        rc, out, err = corr.run_impl(b, script, wrapper=spec.wrapper, timeout=30)
+        rc, out, err = corr.run_impl(b, script, wrapper=spec.wrapper, timeout=10 if run.tier == "quick" else 30)
         validated += 1
         if rc != 0:
             what = "the call does not return: callbacks keep coming (runaway guard of the harness)" if rc == 97 else "timeout" if rc == -9 else "exit status %s" % rc
@@ -159,7 +160,7 @@ def shrink_violation(run, spec, v, cfgs_by_name, bins_by_name):
     if not c or not bins or v.get("variant") not in bins: return v
     b = bins[v["variant"]]
     def fails(script):
-        rc, out, err = corr.run_impl(b, script, wrapper=spec.wrapper, timeout=30)
+        rc, out, err = corr.run_impl(b, script, wrapper=spec.wrapper, timeout=10 if run.tier == "quick" else 30)
         if v.get("monitor"):
             return rc == 0 and any(monitors.run_monitors(mid, out, c) for mid in spec.monitor_ids)
         if rc != 0: return "implementation run failed" in v["reason"]
@@ -186,6 +187,8 @@ def run_machine(run, spec):
     cfgs = spec.cfgs(tier, random.Random(int(hashlib.sha256((spec.pid + tier).encode()).hexdigest()[:8], 16)))
     # every other small configuration is also built against the template overloads of the API (changeTo<T>(), isActive<T>(), plan.change<A, B>(), ...)
     cfgs = cfgs + [dict(c, tapi=1) for k, c in enumerate(cfgs) if c["n"] <= 5 and (k % 2 == 0 or (c["plans"] and c["payload"]))]
+    extra = spec.extra(tier) if spec.extra else []
+    cfgs = cfgs + [c for c in {cfgmod.name(e[0]): e[0] for e in extra}.values() if cfgmod.name(c) not in [cfgmod.name(x) for x in cfgs]]
     corpus = corpus_scripts(spec.pid)
     corpus_cfgs = []
     for path, s in corpus:
@@ -208,8 +211,11 @@ def run_machine(run, spec):
     work = []
     for (path, s), c in zip(corpus, corpus_cfgs):
         work.append((c, s, "corpus:" + os.path.basename(path)))
+    for (c, sc, src) in extra: work.append((c, sc, src))
     per = spec.count(tier)
+    extra_names = set(cfgmod.name(e[0]) for e in extra)
     for c in cfgs:
+        if cfgmod.name(c) in extra_names and cfgmod.name(c) not in [cfgmod.name(x) for x in spec.cfgs(tier, random.Random(1))]: continue
         for k in range(per):
             work.append((c, gen.gen_script(rng, c, spec.profile(c) if callable(spec.profile) else spec.profile), "generated"))
     run.evaluations += len(work)
@@ -217,6 +223,7 @@ def run_machine(run, spec):
         c, s, src = w
         bins = bins_by_name.get(cfgmod.name(c))
         if not bins: return
+        if len(run.violations) > 40: return          # enough failing histories to report; do not spend the budget on a broken build
         analyse(run, spec, c, bins, s, src)
     common.pmap(one, work)
     if run.violations:
